@@ -465,6 +465,22 @@ def check_stage_wiring(ctx, r):
                         else:
                             raise AnalysisError(f"C13.3: `{norm(rs)[:60]}` in the {stage}-check handler raises a local whose class the rule cannot read")
                     cname = x.func.id if isinstance(x, ast.Call) and isinstance(x.func, ast.Name) else None
+                    if isinstance(x, ast.Call) and cname != "TypeCheckError":
+                        # `raise _make_error(msg, ..)`: a package function that builds the exception -- the class of what it returns
+                        t_ = m.resolve_call(impl, x)
+                        if t_.kind == "func" and not t_.target.module.short.startswith("_typeguard"):
+                            kinds_ = set()
+                            for rt in walk_scope(t_.target.node):
+                                if isinstance(rt, ast.Return):
+                                    v_ = rt.value
+                                    if isinstance(v_, ast.Name):
+                                        ds_ = c05._assignments_to(t_.target, v_.id)
+                                        v_ = ds_[0][1] if len(ds_) == 1 and ds_[0][2] is None else None
+                                    kinds_.add(v_.func.id if isinstance(v_, ast.Call) and isinstance(v_.func, ast.Name) else None)
+                            if len(kinds_) == 1 and None not in kinds_:
+                                cname = kinds_.pop()
+                            else:
+                                raise AnalysisError(f"C13.3: `{norm(rs)[:60]}` raises what {t_.target.qualname} returns; its class could not be read")
                     if cname != "TypeCheckError":
                         ctx.bad("C13.3", impl, rs, f"a violated annotation ({stage} check) raises `{norm(x)[:40]}`, not jaxtyping.TypeCheckError")
                 consts, opaque, region_txt = _msg_constants(m, hd, impl)
